@@ -32,6 +32,35 @@ FITS_RESERVED = ['TFIELDS', 'TTYPE1', 'TFORM1', 'ZIMAGE',
                  'PCOUNT', 'GCOUNT']
 
 
+def _to_ndarray(data):
+    """
+    Convert data read by astropy.io.fits to a plain numpy array.  For tables
+    this applies the offsets with which unsigned integer columns are stored.
+
+    Parameters
+    ----------
+    data : `np.ndarray` or `astropy.io.fits.FITS_rec`
+
+    Returns
+    -------
+    data : `np.ndarray`
+    """
+    raw = data.view(np.ndarray)
+    names = raw.dtype.names
+    if names is None or not hasattr(data, 'columns'):
+        return raw
+
+    converted = [data[name] for name in names]
+    if all(col.dtype == raw.dtype[name] for col, name in zip(converted, names)):
+        return raw
+
+    out = np.zeros(raw.shape, dtype=[(name, col.dtype) for col, name in zip(converted, names)])
+    for col, name in zip(converted, names):
+        out[name] = col
+
+    return out
+
+
 class HealSparseFits(object):
     """
     Wrapper class to handle fitsio or astropy.io.fits
@@ -120,7 +149,7 @@ class HealSparseFits(object):
                         return 'u8'
                 return _image_bitpix2npy[bitpix]
             else:
-                return hdu.data[0: 1].dtype
+                return _to_ndarray(hdu.data[0: 1]).dtype
 
     def read_ext_data(self, extension, row_range=None, col_range=None):
         """
@@ -155,12 +184,12 @@ class HealSparseFits(object):
             # the full thing.
             hdu = self.fits_object[extension]
             if row_range is None:
-                return hdu.data.view(np.ndarray)
+                return _to_ndarray(hdu.data)
             elif col_range is None:
                 try:
                     return hdu.section[slice(row_range[0], row_range[1])].view(np.ndarray)
                 except AttributeError:
-                    return hdu.data[slice(row_range[0], row_range[1])].view(np.ndarray)
+                    return _to_ndarray(hdu.data[slice(row_range[0], row_range[1])])
             else:
                 try:
                     return hdu.section[slice(col_range[0], col_range[1]),
